@@ -7,12 +7,16 @@ CONSTANTS
   MsV = {}
   CdV = {}
   StV = {}
+  LogV = {}
+  RefV = {}
+  SuiV = {}
   MaxOps = 0
   MaxDepth = 0
   MaxCommits = 0
 VIEW TraceView
 INVARIANT ReadsArePlainMap
 INVARIANT StageIsCanonical
+INVARIANT SideIsPlainJournal
 INVARIANT ContentsWellFormed
 CONSTRAINT Progress
 POSTCONDITION TraceAccepted
